@@ -22,6 +22,7 @@ type respScript struct {
 	Fault string // "", "close-before-response", "stall", "half-response"
 	Early bool   // respond right after the header section, without reading the body, then close
 	NoCL  bool   // answer 200 without Content-Length (close-delimited), then close
+	EarlyKeep bool // respond (keep-alive) right after the header section, then go on reading the request
 	Seq   *faultSeq // when set: the k-th arrival of this target (at any backend) gets faults[k]
 }
 
@@ -130,8 +131,14 @@ func (w *world) handler(name string) func(bc *sys.BackendConn) {
 	return func(bc *sys.BackendConn) {
 		off := 0
 		for {
+			answered := false
 			if tgt := peekTarget(bc, off, 15*time.Second); tgt != "" {
-				if sc := w.script(tgt); sc != nil && sc.Early {
+				if sc := w.script(tgt); sc != nil && sc.EarlyKeep {
+					// answer before the body arrived, keep the connection and keep reading
+					w.note(tgt, seenReq{Backend: name, Conn: bc, Off: off})
+					fmt.Fprintf(bc.Conn, "HTTP/1.1 200 OK\r\nContent-Length: 5\r\nX-Echo-Target: %s\r\n\r\nearly", tgt)
+					answered = true
+				} else if sc != nil && sc.Early {
 					// answer as soon as the header section is complete, never read the body
 					w.note(tgt, seenReq{Backend: name, Conn: bc, Off: off})
 					fmt.Fprintf(bc.Conn, "HTTP/1.1 200 OK\r\nContent-Length: 5\r\nX-Echo-Target: %s\r\nConnection: close\r\n\r\nearly", tgt)
@@ -155,6 +162,10 @@ func (w *world) handler(name string) func(bc *sys.BackendConn) {
 					w.note("!malformed", seenReq{Backend: name, Conn: bc, Off: off, Err: err})
 				}
 				return
+			}
+			if answered {
+				off += m.ConsumedLen
+				continue
 			}
 			w.note(m.Target, seenReq{Backend: name, Conn: bc, Off: off, Msg: m})
 			off += m.ConsumedLen
